@@ -319,6 +319,8 @@ class Assembler:
             if run is None:
                 raise Unspecified("statement before any *=")
             if k == "label":
+                if st["n"] in scope.defs:
+                    raise Unspecified("duplicate definition in one scope")
                 scope.define(st["n"], run)
                 if not self._in_loop(scope):
                     res.labels.append((st["n"], run))
